@@ -1,0 +1,48 @@
+//go:build verif
+
+// Contracts of package view for the gocv verifier (property C24).
+// Comment-only: no Go code is compiled from this file.
+//
+// The elements of a composite and the view handed to Print are abstract views
+// (type Abstract, build tag verif) with arbitrary declared heights; an
+// abstract view records every height it is granted. abstract_view(k): the
+// k-th abstract view of the unit; composite_of(k): NewComposite over the
+// abstract views 0..k-1. screen_height(): what terminal.GetSize reports.
+// granted_count(i), granted(i): how often and with what height view i was
+// asked to print; out_lines(): number of newlines written by the function
+// itself; sum_granted(k), sum_min(k): sums over the k elements.
+
+package view
+
+// The screen grants one height, at least the declared minimum and at most the
+// terminal height, or renders nothing (terminal too small or unknown).
+
+//@ func Print
+//@   input:e abstract_view(0)
+//@   requires view_min(0) >= 0 && screen_height() >= 0
+//@   ensures[grants-at-most-once] granted_count(0) <= 1
+//@   ensures[at-least-minimum] granted_count(0) == 1 ==> granted(0) >= view_min(0)
+//@   ensures[within-screen] granted_count(0) == 1 ==> granted(0) <= screen_height()
+//@   ensures[within-maximum] granted_count(0) == 1 && view_max(0) >= view_min(0) ==> granted(0) <= view_max(0)
+//@   ensures[renders-when-it-fits] result == nil && !size_unknown() && screen_height() >= view_min(0) ==> granted_count(0) == 1
+
+// A composite given at least its minimum asks every element once, grants each
+// at least its minimum and at most its maximum (a fixed height exactly), and
+// all grants plus the separating blank lines fit the height it was given.
+
+//@ func (*Composite).Print
+//@   enum k in COMPOSITESIZES
+//@   input:v composite_of(k)
+//@   requires heights_small(k) && lines >= 0 && lines <= 14
+//@   ensures[too-small-is-an-error] lines < sum_min(k) + k - 1 ==> result != nil && none_granted(k)
+//@   ensures[every-element-once] lines >= sum_min(k) + k - 1 ==> result == nil && each_granted_once(k)
+//@   ensures[at-least-minimum] lines >= sum_min(k) + k - 1 ==> each_at_least_min(k)
+//@   ensures[at-most-maximum] lines >= sum_min(k) + k - 1 ==> each_at_most_max(k)
+//@   ensures[fits] lines >= sum_min(k) + k - 1 ==> sum_granted(k) + out_lines() <= lines
+//@   ensures[separators] lines >= sum_min(k) + k - 1 ==> out_lines() == k - 1
+
+//@ func (*Composite).MinLines
+//@   enum k in COMPOSITESIZES
+//@   input:v composite_of(k)
+//@   requires heights_small(k)
+//@   ensures[sum-of-minima-and-separators] result == sum_min(k) + k - 1
